@@ -191,6 +191,20 @@ class Runner:
         st = self.st
         self.res.transitions += 1
         sched.yield_point("observe")
+        # the snapshot used for conveyance (get-thread-bindings) must show exactly the thread-bound Vars and their current values
+        try:
+            snap = env.core_fn("get-thread-bindings")()
+            for n in st["observed"]:
+                v = st["vars"][n]
+                bound = any(n in fr for fr in self.stack)
+                has = v in snap
+                if has != bound or (bound and snap[v] != self.model_value(n)):
+                    self.ok = False
+                    self.res.fail("thread-bindings-snapshot-wrong", self.case, var=n, where=where, expected=repr(self.model_value(n)) if bound else "absent",
+                                  got=repr(snap[v]) if has else "absent", thread=self.tid)
+                    return False
+        except sched.Abort:
+            raise
         got_compiled = list(st["reader"]())
         for n, gc in zip(st["observed"], got_compiled):
             exp = self.model_value(n)
@@ -532,6 +546,17 @@ def conveyance_factory(name):
                 # the creator is inside another binding of the same Var while the task may still be pending
                 see("f2", wb(hm(d0, 13), lambda: deref(f2)), (12, 21))
                 see("creator-after", (d0.value, d1.value), (rd0, rd1))
+            elif name == "future-set!-future":
+                def under():
+                    f1 = future_call(read2, exe)
+                    setter("*d0*")(12)
+                    f2 = future_call(read2, exe)
+                    shared.append(bound_fn_star(read2))
+                    return f1, f2
+                f1, f2 = wb(hm(d0, 11, d1, 21), under)
+                see("f1", deref(f1), (11, 21))
+                see("f2", deref(f2), (12, 21))
+                see("bound-fn-created-after-set!", shared[0](), (12, 21))
             elif name == "two-futures":
                 def under():
                     return future_call(read2, exe), future_call(read2, exe)
@@ -625,7 +650,7 @@ def b_scenarios(tier):
     out = []
     for name in thread_programs():
         out.append(("progs", name, 1 if quick else 2))
-    for name in ("future-then-set!", "set!-then-future", "two-futures", "bound-fn", "pmap"):
+    for name in ("future-then-set!", "set!-then-future", "future-set!-future", "two-futures", "bound-fn", "pmap"):
         out.append(("conv", name, 1 if quick else 2))
     return out
 
